@@ -164,6 +164,9 @@ static int usedp (sexp lambda, sexp var, sexp x) {
   case SEXP_REF:
     return sexp_ref_name(x) == var && sexp_ref_loc(x) == lambda;
   case SEXP_SET:
+    /* assigning to the variable uses its slot even if it is never read */
+    if (usedp(lambda, var, sexp_set_var(x)))
+      return 1;
     x = sexp_set_value(x);
     goto loop;
   case SEXP_LAMBDA:
